@@ -94,6 +94,9 @@ type Clause struct {
 	Text string
 	Loop int
 	Line string // file:line
+	// Assumed: `trust ensures e` in a verified contract: callers may rely on it, the body is not checked against it
+	// (listed as an assumption); lets one function be verified for some clauses while others stay trusted
+	Assumed bool
 }
 
 type Contract struct {
@@ -474,7 +477,7 @@ func (p *parser) primary() *E {
 
 // ---------- contract files ----------
 
-var clauseKw = map[string]bool{"ghost": true, "after": true, "props": true, "arith": true, "requires": true, "ensures": true, "modifies": true,
+var clauseKw = map[string]bool{"trust": true, "ghost": true, "after": true, "props": true, "arith": true, "requires": true, "ensures": true, "modifies": true,
 	"loop": true, "assume": true, "pure": true, "opt": true, "preserves": true}
 
 var reFuncHdr = regexp.MustCompile(`^(trusted\s+)?func\s+(\S.*)$`)
@@ -665,6 +668,16 @@ func (cs *Contracts) loadFile(file string) error {
 			} else {
 				cur.Opts[rest] = "1"
 			}
+		case "trust":
+			if !strings.HasPrefix(rest, "ensures ") {
+				return fail(fmt.Errorf("expected 'trust ensures <expr>'"))
+			}
+			c, err := mk("ensures", strings.TrimSpace(rest[8:]), 0)
+			if err != nil {
+				return err
+			}
+			c.Assumed = true
+			cur.Ensures = append(cur.Ensures, c)
 		case "requires", "ensures", "assume":
 			c, err := mk(kw, rest, 0)
 			if err != nil {
